@@ -84,7 +84,7 @@ def cases(tier, rng):
 def nontrivial(case, out):
     return 'SFired' in out and 'c_script' in case
 
-STAGES = [dict(name='law', mode='app', coq='Check.C03c', cases=cases, nontrivial=nontrivial, shard=40,
+STAGES = [dict(name='law', mode='app', coq='Check.C03c', profile=('Proofs.JudgeC03P', 'JudgeC03P.profile_C03b', 'C03_app_judgement_sound / C03_app_judgement_transfer'), cases=cases, nontrivial=nontrivial, shard=40,
                exhaustive={'thorough': True, 'quick': True},
                rule='one bool action bound to keys in a real context; every condition is scripted (kind in {explicit, implicit, blocker, events-only blocker} '
                     'x result in {None, Ongoing, Fired} per frame). Exhaustive: every kind sequence of length <= 2 (quick) / <= 3 (thorough) at input level and at '
